@@ -38,7 +38,39 @@ type consCase struct {
 	VC   []string `json:"vc"` // value class per member
 	Cfg  consCfg  `json:"cfg"`
 	Deft bool     `json:"defaultparts"`
+	TSet int      `json:"tset"` // index into tsets: TimeFieldFormat (global), ConsoleWriter.TimeFormat and .TimeLocation
 }
+
+// tset: one combination of the settings that decide how the time part is rendered. The contract is independent of how
+// ConsoleWriter parses the field back: the part shows the INSTANT that was logged (at the resolution TimeFieldFormat keeps)
+// in TimeLocation, laid out by TimeFormat (Kitchen when empty).
+type tset struct {
+	tff    string         // zerolog.TimeFieldFormat while the event is logged and rendered
+	layout string         // ConsoleWriter.TimeFormat
+	loc    *time.Location // ConsoleWriter.TimeLocation
+}
+
+var tsets = []tset{
+	{time.RFC3339, "", time.UTC},
+	{time.RFC3339, time.RFC3339, time.FixedZone("east", 2*3600)},
+	{zerolog.TimeFormatUnix, "", time.UTC},
+	{zerolog.TimeFormatUnixMs, "15:04:05.000", time.UTC},
+	{zerolog.TimeFormatUnixMicro, time.RFC3339Nano, time.FixedZone("west", -7*3600)},
+	{zerolog.TimeFormatUnixNano, time.StampNano, time.UTC},
+	{time.RFC3339Nano, "2006-01-02 15:04:05.000000000 -0700", time.FixedZone("half", 5*3600+1800)},
+}
+
+var realTimes = []time.Time{
+	time.Date(2001, 2, 3, 4, 5, 6, 123456789, time.UTC),
+	time.Date(1969, 12, 31, 23, 59, 58, 999999999, time.UTC),
+	time.Date(2038, 1, 19, 3, 14, 8, 1000, time.FixedZone("x", 3600)),
+	time.Unix(0, 0).UTC(),
+}
+
+// timeReal marks a member logged with Event.Time: the expected text is computed from the instant itself.
+type timeReal struct{ t time.Time }
+
+var curTset = tsets[0]
 
 var fmtLevels = map[string]string{"trace": "TRC", "debug": "DBG", "info": "INF", "warn": "WRN", "error": "ERR", "fatal": "FTL", "panic": "PNC"}
 
@@ -90,6 +122,9 @@ func addField(e *zerolog.Event, name, vc string, i int) (*zerolog.Event, interfa
 		return e.Str(name, "custom"), "custom"
 	case "lvl-num":
 		return e.Int(name, 3), json.Number("3")
+	case "time-real":
+		t := realTimes[i%len(realTimes)]
+		return e.Time(name, t), timeReal{t}
 	case "time-rfc":
 		return e.Str(name, "2001-02-03T04:05:06Z"), "2001-02-03T04:05:06Z"
 	case "time-bad":
@@ -145,6 +180,27 @@ func partText(p string, v interface{}, present bool) string {
 			return "<nil>"
 		}
 		switch x := v.(type) {
+		case timeReal:
+			ts := curTset
+			layout := ts.layout
+			if layout == "" {
+				layout = time.Kitchen
+			}
+			// the instant the JSON field carries: a layout without fraction and Unix seconds drop the fraction (floor);
+			// the millisecond / microsecond forms divide UnixNano (integer division, toward zero); the others are exact
+			at := x.t
+			ns := x.t.UnixNano()
+			switch ts.tff {
+			case time.RFC3339:
+				at = x.t.Truncate(time.Second)
+			case zerolog.TimeFormatUnix:
+				at = time.Unix(x.t.Unix(), 0)
+			case zerolog.TimeFormatUnixMs:
+				at = time.Unix(0, ns/1000000*1000000)
+			case zerolog.TimeFormatUnixMicro:
+				at = time.Unix(0, ns/1000*1000)
+			}
+			return at.In(ts.loc).Format(layout)
 		case string:
 			t, err := time.ParseInLocation(time.RFC3339, x, time.UTC)
 			if err != nil {
@@ -279,6 +335,9 @@ func (f *consoleFam) play(l *Line, out *rec) error {
 				"oneline": strings.HasSuffix(line, "\n") && strings.Count(line, "\n") == 1, "endsnl": strings.HasSuffix(line, "\n")})
 			continue
 		}
+		curTset = tsets[c.TSet%len(tsets)]
+		oldTFF := zerolog.TimeFieldFormat
+		zerolog.TimeFieldFormat = curTset.tff
 		var in bytes.Buffer
 		lg := zerolog.New(&in)
 		e := lg.Log()
@@ -290,7 +349,7 @@ func (f *consoleFam) play(l *Line, out *rec) error {
 		}
 		e.Send()
 		mk := func(o *bytes.Buffer) zerolog.ConsoleWriter {
-			w := zerolog.ConsoleWriter{Out: o, NoColor: true, TimeLocation: time.UTC, PartsExclude: c.Cfg.PExcl, FieldsOrder: c.Cfg.FOrder, FieldsExclude: c.Cfg.FExcl}
+			w := zerolog.ConsoleWriter{Out: o, NoColor: true, TimeLocation: curTset.loc, TimeFormat: curTset.layout, PartsExclude: c.Cfg.PExcl, FieldsOrder: c.Cfg.FOrder, FieldsExclude: c.Cfg.FExcl}
 			if !c.Deft {
 				w.PartsOrder = append([]string{}, c.Cfg.Parts...)
 			}
@@ -327,7 +386,8 @@ func (f *consoleFam) play(l *Line, out *rec) error {
 		if fields == nil {
 			fields = []string{}
 		}
-		out.emit(map[string]interface{}{"a": "Case", "ev": c.Ev, "vc": c.VC, "cfg": c.Cfg, "n": n, "inlen": in.Len(), "err": errs,
+		zerolog.TimeFieldFormat = oldTFF
+		out.emit(map[string]interface{}{"a": "Case", "ev": c.Ev, "vc": c.VC, "cfg": c.Cfg, "tset": c.TSet, "n": n, "inlen": in.Len(), "err": errs,
 			"same": bytes.Equal(o1.Bytes(), o2.Bytes()), "oneline": oneline, "gotparts": parts, "gotfields": fields, "line": line})
 	}
 	return nil
